@@ -9,6 +9,7 @@ import (
 	"fmt"
 	"net/netip"
 	"slices"
+	"strings"
 	"testing"
 	"time"
 
@@ -269,14 +270,72 @@ func c14Seqs(maxLen int) func(yield func(c14Case) bool) {
 	}
 }
 
+// c14OverlapProp: see vkOverlapped.
+func c14OverlapProp(k *verifkit.Kit) func(c c14Case) error {
+	return func(c c14Case) error {
+		want, ok := verifref.BestRDNSS(c.Addrs)
+		if c.SrcErr || !ok || slices.Contains(c.Static, want) {
+			k.Record(c, false, "overlap:not-applicable")
+			return nil
+		}
+		otherList := vkPermute(c.Addrs, c.Perm)
+		if len(otherList) > 1 {
+			otherList = otherList[1:]
+		}
+		want2, ok2 := verifref.BestRDNSS(otherList)
+		if !ok2 || slices.Contains(c.Static, want2) {
+			otherList, want2 = c.Addrs, want
+		}
+		k.Record(c, true, "overlap")
+		render := func(g []ndp.Option, err error) (string, error) {
+			if err != nil || len(g) != 1 {
+				return fmt.Sprintf("%d options", len(g)), err
+			}
+			o, _ := g[0].(*ndp.RecursiveDNSServer)
+			if o == nil {
+				return fmt.Sprintf("%T", g[0]), nil
+			}
+			return fmt.Sprint(o.Servers), nil
+		}
+		ref := func(w netip.Addr) string { return fmt.Sprint(append([]netip.Addr{w}, c.Static...)) }
+		cur := c.Addrs
+		pl := c14Plugin(c, &cur)
+		cur2 := otherList
+		other := c14Plugin(c, &cur2)
+		if len(c.Addrs)%2 == 0 {
+			other, want2 = pl, want
+		}
+		orig := pl.Addrs
+		return vkOverlapped("C14",
+			func(gate func()) (string, error) {
+				gp := *pl
+				gp.Addrs = func() ([]system.IP, error) { gate(); return orig() }
+				if other == pl {
+					pl.Addrs = gp.Addrs
+					return render(c14ApplyOn(c, pl))
+				}
+				return render(c14ApplyOn(c, &gp))
+			},
+			func() (string, error) { return render(c14ApplyOn(c, other)) },
+			ref(want), ref(want2),
+			func() (string, error) { return render(c14ApplyOn(c, pl)) })
+	}
+}
+
 func TestVerif_C14(t *testing.T) {
 	k := verifkit.Start(t, "C14")
 	prop := c14Prop(k)
-	k.Regress(t, func(sub string, raw json.RawMessage) error { return verifkit.Decode(raw, prop) })
+	k.Regress(t, func(sub string, raw json.RawMessage) error {
+		if strings.HasPrefix(sub, "overlapping") {
+			return verifkit.Decode(raw, c14OverlapProp(k))
+		}
+		return verifkit.Decode(raw, prop)
+	})
 	maxLen := 3
 	if k.Thorough() {
 		maxLen = 4
 	}
 	verifkit.Enumerate(k, t, fmt.Sprintf("pool-sequences<=%d", maxLen), true, c14Seqs(maxLen), prop)
 	verifkit.Rapid(k, t, "random-lists", k.N(4000, 1000000), c14Gen, prop)
+	verifkit.Rapid(k, t, "overlapping-applications", k.N(400, 40000), c14Gen, c14OverlapProp(k))
 }
